@@ -175,7 +175,27 @@ def gen_C20(rng, tier, cfg):
     keystreams, BLAKE-256/512, JH, Threefish, each a prefix of the property's own generator."""
     budget = 150 if tier == "quick" else 600
     ops, stats = [], {}
-    for fam in ("C01", "C04", "C06", "C09"):
+    # counter/lane boundaries of the selected vector backend (a feature that swaps the backend must not
+    # change what happens when a 32-bit or 64-bit lane carries): block API across 2^32 and 2^64, the IETF
+    # cipher reading its last four blocks with nonce word 0 = ffffffff and being used afterwards, a 64-bit
+    # cipher crossing block 2^32 in the wide path
+    ops.append("# C20 boundary block under %s" % cfg)
+    nb = 0
+    for ctr in [2**32 - 4, 2**32 - 3, 2**32 - 2, 2**32 - 1, 2**64 - 4, 2**64 - 3, 2**64 - 2, 2**64 - 1]:
+        ops += ["guts new 0 %s %s" % (gens.hx(gens.struct_bytes(rng, 32)), gens.hx(gens.struct_bytes(rng, 8))),
+                "guts set 0 0 %d" % ctr, "guts refill4 0 %d" % rng.choice([4, 6, 10]), "guts get 0 0", "guts get 0 1",
+                "guts refill 0 10", "guts get 0 0", "guts get 0 1"]
+        nb += 1
+    key = gens.hx(gens.struct_bytes(rng, 32))
+    ops += ["chacha new 0 ietf %s ffffffff%s" % (key, gens.hx(gens.struct_bytes(rng, 8))),
+            "chacha seek 0 u64 %d" % (2**38 - 256), "chacha applypat 0 256 7", "chacha seek 0 u64 0", "chacha applypat 0 300 8",
+            "chacha seek 0 u64 %d" % (2**38 - 100), "chacha applypat 0 101 9", "chacha seek 0 u64 64", "chacha applypat 0 64 1",
+            "chacha new 1 chacha20 %s %s" % (key, gens.hx(gens.struct_bytes(rng, 8))),
+            "chacha seek 1 u64 %d" % (2**38 - 130), "chacha applypat 1 700 3", "chacha pos 1 u128",
+            "chacha new 2 xchacha20 %s %s" % (key, gens.hx(gens.struct_bytes(rng, 24))),
+            "chacha seek 2 u64 %d" % (2**38 - 256), "chacha applypat 2 1024 4"]
+    stats["boundary_cases"] = nb + 3
+    for fam in ("C01", "C04", "C06", "C09", "C05"):
         sub = cclib.XorShift(rng.next())
         o, _ = gens.GENS[fam](sub, "quick", cfg)
         o = o[:budget]
